@@ -226,7 +226,8 @@ class Fault(ModelData, Model):
             if is_time[i] and (self.u.v[i] == 1):
                 self.uf.v[i] = 0
 
-                if self.config.restore:
+                # nothing to restore if the fault was never applied
+                if self.config.restore and len(self._vstore) > 0:
                     if self.config.mode == 1:
                         self.system.dae.y[self.system.Bus.n:] = self._vstore * self.config.scale
                         logger.debug("All algebraic variables restored after fault clearance at t=%.6f",
